@@ -17,6 +17,16 @@ def txSlack : Nat := 41943072
 def Nice (ty : Ty) : Prop :=
   canon ty = true ∧ bounded ty = true ∧ dens ty ≤ txDens ∧ slack ty ≤ txSlack
 
+/-- the allocation part alone (for the payloads whose reader is not canonical) -/
+def NiceB (ty : Ty) : Prop := bounded ty = true ∧ dens ty ≤ txDens ∧ slack ty ≤ txSlack
+
+theorem Nice.toB {ty : Ty} (h : Nice ty) : NiceB ty := h.2
+
+theorem niceB_crcProposal (pv : Nat) : NiceB (crcProposal pv) := by
+  unfold crcProposal crcChangeOwner crcClose crcSecretary crcUpgrade crcSideChain crcReserveID crcReceiveID
+    crcIDFee crcNormal crcHead NiceB
+  by_cases h1 : 1 ≤ pv <;> simp only [h1, if_true, if_false] <;> decide
+
 theorem nice_producerInfo (pv : Nat) : Nice (producerInfo pv) := by
   unfold producerInfo Nice
   by_cases h1 : 1 ≤ pv <;> by_cases h2 : pv < 2 <;> simp only [h1, h2, if_true, if_false] <;> decide
@@ -112,51 +122,55 @@ theorem covered_cases {ty : Nat} {f : Nat → Ty} (h : payloadOf ty = .covered f
     f = unregisterCR ∨
     f = crcProposalTracking ∨
     f = returnSideChainDepositCoin ∨
-    f = createNFT := by
+    f = createNFT ∨
+    f = (fun _ => dposIllegalVotes) ∨ f = (fun _ => recordProposalResult) ∨ f = crcProposal := by
   unfold payloadOf at h
   split at h <;> simp_all
 
-theorem nice_covered {ty : Nat} {f : Nat → Ty} (h : payloadOf ty = .covered f) (pv : Nat) :
-    Nice (f pv) := by
-  rcases covered_cases h with rfl | rfl | rfl | rfl | rfl | rfl | rfl | rfl | rfl | rfl | rfl | rfl | rfl | rfl | rfl | rfl | rfl | rfl | rfl | rfl | rfl | rfl | rfl | rfl | rfl | rfl | rfl | rfl | rfl | rfl | rfl | rfl | rfl
-  · show Nice coinBase; unfold Nice; decide
-  · show Nice transferAsset; unfold Nice; decide
-  · show Nice dposIllegalBlocks; unfold Nice; decide
-  · show Nice inactiveArbitrators; unfold Nice; decide
-  · show Nice record; unfold Nice; decide
-  · show Nice sideChainPow; unfold Nice; decide
-  · show Nice emptyPayload; unfold Nice; decide
-  · show Nice activateProducer; unfold Nice; decide
-  · show Nice updateVersion; unfold Nice; decide
-  · show Nice hashList; unfold Nice; decide
-  · show Nice crCouncilMemberClaimNode; unfold Nice; decide
-  · show Nice revertToPOW; unfold Nice; decide
-  · show Nice revertToDPOS; unfold Nice; decide
-  · show Nice recordSponsor; unfold Nice; decide
-  · show Nice registerAsset; unfold Nice; decide
-  · show Nice dposIllegalProposals; unfold Nice; decide
-  · show Nice sidechainIllegalData; unfold Nice; decide
-  · show Nice votesRealWithdraw; unfold Nice; decide
-  · show Nice nftDestroyFromSideChain; unfold Nice; decide
-  · exact nice_producerInfo pv
-  · exact nice_nextTurnDPOSInfo pv
-  · exact nice_crcProposalReview pv
-  · exact nice_voting pv
-  · exact nice_processProducer pv
-  · exact nice_returnVotes pv
-  · exact nice_crcProposalWithdraw pv
-  · exact nice_withdrawFromSideChain pv
-  · exact nice_transferCrossChainAsset pv
-  · exact nice_crInfo pv
-  · exact nice_unregisterCR pv
-  · exact nice_crcProposalTracking pv
-  · exact nice_returnSideChainDepositCoin pv
-  · exact nice_createNFT pv
+theorem niceB_covered {ty : Nat} {f : Nat → Ty} (h : payloadOf ty = .covered f) (pv : Nat) :
+    NiceB (f pv) := by
+  rcases covered_cases h with rfl | rfl | rfl | rfl | rfl | rfl | rfl | rfl | rfl | rfl | rfl | rfl | rfl | rfl | rfl | rfl | rfl | rfl | rfl | rfl | rfl | rfl | rfl | rfl | rfl | rfl | rfl | rfl | rfl | rfl | rfl | rfl | rfl | rfl | rfl | rfl
+  · show NiceB coinBase; unfold NiceB; decide
+  · show NiceB transferAsset; unfold NiceB; decide
+  · show NiceB dposIllegalBlocks; unfold NiceB; decide
+  · show NiceB inactiveArbitrators; unfold NiceB; decide
+  · show NiceB record; unfold NiceB; decide
+  · show NiceB sideChainPow; unfold NiceB; decide
+  · show NiceB emptyPayload; unfold NiceB; decide
+  · show NiceB activateProducer; unfold NiceB; decide
+  · show NiceB updateVersion; unfold NiceB; decide
+  · show NiceB hashList; unfold NiceB; decide
+  · show NiceB crCouncilMemberClaimNode; unfold NiceB; decide
+  · show NiceB revertToPOW; unfold NiceB; decide
+  · show NiceB revertToDPOS; unfold NiceB; decide
+  · show NiceB recordSponsor; unfold NiceB; decide
+  · show NiceB registerAsset; unfold NiceB; decide
+  · show NiceB dposIllegalProposals; unfold NiceB; decide
+  · show NiceB sidechainIllegalData; unfold NiceB; decide
+  · show NiceB votesRealWithdraw; unfold NiceB; decide
+  · show NiceB nftDestroyFromSideChain; unfold NiceB; decide
+  · exact (nice_producerInfo pv).toB
+  · exact (nice_nextTurnDPOSInfo pv).toB
+  · exact (nice_crcProposalReview pv).toB
+  · exact (nice_voting pv).toB
+  · exact (nice_processProducer pv).toB
+  · exact (nice_returnVotes pv).toB
+  · exact (nice_crcProposalWithdraw pv).toB
+  · exact (nice_withdrawFromSideChain pv).toB
+  · exact (nice_transferCrossChainAsset pv).toB
+  · exact (nice_crInfo pv).toB
+  · exact (nice_unregisterCR pv).toB
+  · exact (nice_crcProposalTracking pv).toB
+  · exact (nice_returnSideChainDepositCoin pv).toB
+  · exact (nice_createNFT pv).toB
+  · show NiceB dposIllegalVotes; unfold NiceB; decide
+  · show NiceB recordProposalResult; unfold NiceB; decide
+  · exact niceB_crcProposal pv
 
 /-- beyond version 4 no covered payload changes its layout (so `txBody`'s default case is right) -/
 theorem covered_stable {ty : Nat} {f : Nat → Ty} (h : payloadOf ty = .covered f) (pv : Nat)
     (hpv : 4 ≤ pv) : f pv = f 4 := by
-  rcases covered_cases h with rfl | rfl | rfl | rfl | rfl | rfl | rfl | rfl | rfl | rfl | rfl | rfl | rfl | rfl | rfl | rfl | rfl | rfl | rfl | rfl | rfl | rfl | rfl | rfl | rfl | rfl | rfl | rfl | rfl | rfl | rfl | rfl | rfl
+  rcases covered_cases h with rfl | rfl | rfl | rfl | rfl | rfl | rfl | rfl | rfl | rfl | rfl | rfl | rfl | rfl | rfl | rfl | rfl | rfl | rfl | rfl | rfl | rfl | rfl | rfl | rfl | rfl | rfl | rfl | rfl | rfl | rfl | rfl | rfl | rfl | rfl | rfl
   · rfl
   · rfl
   · rfl
@@ -222,36 +236,53 @@ theorem covered_stable {ty : Nat} {f : Nat → Ty} (h : payloadOf ty = .covered 
   · unfold createNFT
     have h1 : 1 ≤ pv := by omega
     simp [h1]
+  · rfl
+  · rfl
+  · unfold crcProposal crcChangeOwner crcClose crcSecretary crcSideChain crcReserveID crcReceiveID
+      crcIDFee crcNormal crcHead
+    have h1 : 1 ≤ pv := by omega
+    simp [h1]
+
+/-- every covered payload except the three with a non-canonical reader is canonical at every version -/
+theorem canon_covered (ty : Nat) (f : Nat → Ty) (pv : Nat) :
+    payloadOf ty = .covered f → ty ≠ 0x0f → ty ≠ 0x15 → ty ≠ 0x25 → canon (f pv) = true := by
+  unfold payloadOf
+  split <;> intro h h1 h2 h3 <;>
+    first
+    | (simp only [Cover.covered.injEq] at h; subst h; try dsimp only
+       first
+        | decide
+        | exact (nice_producerInfo pv).1 | exact (nice_nextTurnDPOSInfo pv).1
+        | exact (nice_crcProposalReview pv).1 | exact (nice_voting pv).1
+        | exact (nice_processProducer pv).1 | exact (nice_returnVotes pv).1
+        | exact (nice_crcProposalWithdraw pv).1 | exact (nice_withdrawFromSideChain pv).1
+        | exact (nice_transferCrossChainAsset pv).1 | exact (nice_crInfo pv).1
+        | exact (nice_unregisterCR pv).1 | exact (nice_crcProposalTracking pv).1
+        | exact (nice_returnSideChainDepositCoin pv).1 | exact (nice_createNFT pv).1
+        | exact absurd rfl h1 | exact absurd rfl h2 | exact absurd rfl h3)
+    | (simp at h)
 
 theorem nice_output (v9 : Bool) : Nice (output v9) := by
   cases v9 <;> unfold Nice <;> decide
 
-/-- the unsigned fields of every covered (type, version) pair -/
-theorem body_nice {ty ver : Nat} {fs : List Ty} (h : bodyTy? ty ver = some fs) :
-    canonFields fs = true ∧ boundedFields fs = true ∧ densFields fs ≤ txDens ∧
-    slackFields fs ≤ txSlack := by
+/-- the unsigned fields of every (type, version) pair of the table: allocation facts -/
+theorem body_niceB {ty ver : Nat} {fs : List Ty} (h : bodyTy? ty ver = some fs) :
+    boundedFields fs = true ∧ densFields fs ≤ txDens ∧ slackFields fs ≤ txSlack := by
   unfold bodyTy? at h
   cases hp : payloadOf ty with
   | covered f =>
     simp only [hp, Option.some.injEq] at h
     subst h
-    obtain ⟨a0, b0, c0, d0⟩ := nice_covered hp 0
-    obtain ⟨a1, b1, c1, d1⟩ := nice_covered hp 1
-    obtain ⟨a2, b2, c2, d2⟩ := nice_covered hp 2
-    obtain ⟨a3, b3, c3, d3⟩ := nice_covered hp 3
-    obtain ⟨a4, b4, c4, d4⟩ := nice_covered hp 4
-    obtain ⟨ao, bo, co, do_⟩ := nice_output (decide (txVersion09 ≤ ver))
-    have hattr : Nice (lst 96 attributeTy) := by unfold Nice; decide
-    have hin : Nice (lst 96 input) := by unfold Nice; decide
-    obtain ⟨aa, ba, ca, da⟩ := hattr
-    obtain ⟨ai, bi, ci, di⟩ := hin
+    obtain ⟨b0, c0, d0⟩ := niceB_covered hp 0
+    obtain ⟨b1, c1, d1⟩ := niceB_covered hp 1
+    obtain ⟨b2, c2, d2⟩ := niceB_covered hp 2
+    obtain ⟨b3, c3, d3⟩ := niceB_covered hp 3
+    obtain ⟨b4, c4, d4⟩ := niceB_covered hp 4
+    obtain ⟨_, bo, co, do_⟩ := nice_output (decide (txVersion09 ≤ ver))
     have m1 : 1 ≤ minSize (output (decide (txVersion09 ≤ ver))) := by
       cases decide (txVersion09 ≤ ver) <;> decide
     unfold txDens txSlack at *
-    refine ⟨?_, ?_, ?_, ?_⟩
-    · have x1 : canon attributeTy = true := by decide
-      have x2 : canon input = true := by decide
-      simp [txBody, canonFields, canon, canonCases, a0, a1, a2, a3, a4, ao, x1, x2]
+    refine ⟨?_, ?_, ?_⟩
     · have x1 : bounded attributeTy = true := by decide
       have x2 : bounded input = true := by decide
       have x3 : 1 ≤ minSize attributeTy := by decide
@@ -267,6 +298,26 @@ theorem body_nice {ty ver : Nat} {fs : List Ty} (h : bodyTy? ty ver = some fs) :
       have x2 : slack input = 0 := by decide
       simp only [txBody, slackFields, slack, slackCases, Option.getD_none, x1, x2]
       omega
+  | uncovered => simp [hp] at h
+  | invalid => simp [hp] at h
+
+/-- … and canonicity, for every type except IllegalVoteEvidence (0x0f), ProposalResult (0x15), CRCProposal (0x25) -/
+theorem body_canon {ty ver : Nat} {fs : List Ty} (h : bodyTy? ty ver = some fs)
+    (h1 : ty ≠ 0x0f) (h2 : ty ≠ 0x15) (h3 : ty ≠ 0x25) : canonFields fs = true := by
+  unfold bodyTy? at h
+  cases hp : payloadOf ty with
+  | covered f =>
+    simp only [hp, Option.some.injEq] at h
+    subst h
+    have a0 := canon_covered ty f 0 hp h1 h2 h3
+    have a1 := canon_covered ty f 1 hp h1 h2 h3
+    have a2 := canon_covered ty f 2 hp h1 h2 h3
+    have a3 := canon_covered ty f 3 hp h1 h2 h3
+    have a4 := canon_covered ty f 4 hp h1 h2 h3
+    obtain ⟨ao, _, _, _⟩ := nice_output (decide (txVersion09 ≤ ver))
+    have x1 : canon attributeTy = true := by decide
+    have x2 : canon input = true := by decide
+    simp [txBody, canonFields, canon, canonCases, a0, a1, a2, a3, a4, ao, x1, x2]
   | uncovered => simp [hp] at h
   | invalid => simp [hp] at h
 
